@@ -396,6 +396,8 @@ class HttpParser(abc.ABC, Generic[_MsgT]):
                             msg: _MsgT = self.parse_message(self._lines)
                         finally:
                             self._lines.clear()
+                            # The next line starts a new message
+                            max_line_length = self.max_line_size
 
                         def get_content_length() -> int | None:
                             # payload length
